@@ -72,6 +72,14 @@ CHECKS = [
          text='Model of the exact-occurrence branch (token scan, TargetRange, slice bounds) with the theorem that a token-aligned occurrence is reported with exactly its Offset/Extent and that reported spans lie inside the text (Matcher1Proof.v when listed); the original scan is refuted by computation. Oracle in child processes (worker-goroutine panics kill the process): planted verbatim values, NearestMatch of known values, confidence and span bounds, AddValue on arbitrary strings.',
          note='partial: regexp literal search, levDist/go-diff, dedup/uniquify and the goroutine fan-out are exercised by the oracle only.',
          technique=T_CORR),
+    dict(id='C12',
+         text="Coq theorems (Load.v): the repaired LoadLicenses performs exactly the AddContent calls of the files with at least three segments whose path ends in txt (key = first three segments), ignoring shallower and non-txt files; the code as found is refuted at string level (trailing separator, '.', stray depth-2 file: index out of range). Oracle on real directory trees x 8 spellings incl. DefaultClassifier vs LoadLicenses(assets).",
+         note='filepath.Walk/Rel/Clean and embed are oracles whose contract (relative segments independent of the spelling) is checked on every generated tree; equality of Match results is checked on probe inputs.',
+         technique=T_CORR),
+    dict(id='C19',
+         text="PARTIAL. Coq theorems (Cli.v): for every interleaving of the per-file appends the printed results are, as a multiset, the union of the library's per-file results filtered by -headers, and the exit status is 0 iff that union is non-empty; readFileLines model with/without the scanner limit (refutation of the limit). The real binary built from the tree is run on generated directory trees x flags x -tasks and compared with in-process Match results (stdout, JSON incl. Text, exit status).",
+         note='partial: process plumbing, flag parsing, logging, JSON encoding, the 24h timeout and real goroutine scheduling are not modelled; order among equal sort keys is not claimed.',
+         technique=T_CORR),
 ]
 _PENDING = "check under construction in this round (model/proof not yet committed); not claimed until it is"
-NOT_APPLICABLE = [dict(property_id='C%02d' % i, reason=_PENDING) for i in range(1, 20) if i not in (1,2,3,4,5,6,7,8,10,11,13,17,18)]
+NOT_APPLICABLE = [dict(property_id='C%02d' % i, reason=_PENDING) for i in range(1, 20) if i not in (1,2,3,4,5,6,7,8,10,11,12,13,17,18,19)]
